@@ -329,7 +329,10 @@ class Run:
             for cid in case_by_id:
                 a, b = model.get(cid, []), [x for x in impl.get(cid, []) if not x.startswith("!")]
                 if hasattr(mod, "impl_projection"):
-                    b = mod.impl_projection(impl.get(cid, []))
+                    if getattr(mod, "PROJECTION_TAKES_CASE", False):
+                        b = mod.impl_projection(impl.get(cid, []), case_by_id[cid])
+                    else:
+                        b = mod.impl_projection(impl.get(cid, []))
                 if a == ["unmodelled"]:
                     self.unmodelled = getattr(self, "unmodelled", 0) + 1
                     continue
